@@ -103,9 +103,98 @@ class _IfExpToIf(ast.NodeTransformer):
         return self._split(st, st.value, lambda v: ast.copy_location(ast.Return(value=v), st))
 
 
-def normalise_body(body: List[ast.stmt]) -> List[ast.stmt]:
+class _TableDispatch(ast.NodeTransformer):
+    """`TABLE[key](args)` where TABLE is a dict literal {constant: callable, ...} bound once (locally or at module level) becomes
+    `if key == c1: f1(args) elif key == c2: f2(args) ... else: TABLE[key](args)`: the callees become visible to inlining and to the
+    guard analyses; the else branch keeps the original call (unknown keys behave as before)"""
+
+    def __init__(self, repo: Optional[Repo], f: Optional[FuncInfo], fn: ast.AST):
+        self.repo, self.f = repo, f
+        self.local: Dict[str, List[ast.AST]] = {}
+        for n in ast.walk(fn):
+            if isinstance(n, (ast.Assign, ast.AnnAssign)) and n.value is not None:
+                for t in (n.targets if isinstance(n, ast.Assign) else [n.target]):
+                    for nm in ([t.id] if isinstance(t, ast.Name) else [x.id for x in ast.walk(t) if isinstance(x, ast.Name)]):
+                        self.local.setdefault(nm, []).append(n.value if isinstance(t, ast.Name) else None)
+            elif isinstance(n, (ast.For, ast.comprehension)):
+                for x in ast.walk(n.target):
+                    if isinstance(x, ast.Name):
+                        self.local.setdefault(x.id, []).append(None)
+            elif isinstance(n, ast.AugAssign) and isinstance(n.target, ast.Name):
+                self.local.setdefault(n.target.id, []).append(None)
+
+    def visit_FunctionDef(self, n):
+        return n
+
+    visit_AsyncFunctionDef = visit_Lambda = visit_FunctionDef
+
+    def _table(self, e: ast.AST) -> Optional[ast.Dict]:
+        if not isinstance(e, ast.Name):
+            return None
+        d = None
+        if e.id in self.local:
+            vals = self.local[e.id]
+            if len(vals) == 1 and isinstance(vals[0], ast.Dict):
+                d = vals[0]
+        elif self.repo is not None and self.f is not None:
+            try:
+                node = self.repo.const_node(self.f.mod.name, e.id)
+            except Exception:
+                node = None
+            if isinstance(node, ast.Dict):
+                d = node
+        if d is None or not d.keys or any(k is None or not isinstance(k, ast.Constant) for k in d.keys):
+            return None
+        if not all(isinstance(v, (ast.Attribute, ast.Name)) for v in d.values):
+            return None
+        return d
+
+    def _dispatch_call(self, call: ast.AST):
+        """(table dict, key expression, call) when `call` is TABLE[key](...)"""
+        if isinstance(call, ast.Call) and isinstance(call.func, ast.Subscript) and not isinstance(call.func.slice, ast.Slice):
+            d = self._table(call.func.value)
+            if d is not None and isinstance(call.func.slice, (ast.Name, ast.Attribute, ast.Subscript, ast.Constant)):
+                return d, call.func.slice, call
+        return None
+
+    def _rewrite(self, st: ast.stmt, value: ast.AST, make):
+        got = self._dispatch_call(value)
+        if got is None:
+            return st
+        d, key, call = got
+        chain: Optional[ast.If] = None
+        tail = [make(copy.deepcopy(call))]
+        for k, v in reversed(list(zip(d.keys, d.values))):
+            direct = ast.Call(func=copy.deepcopy(v), args=copy.deepcopy(call.args), keywords=copy.deepcopy(call.keywords))
+            test = ast.Compare(left=copy.deepcopy(key), ops=[ast.Eq()], comparators=[copy.deepcopy(k)])
+            node = ast.If(test=test, body=[make(direct)], orelse=tail if chain is None else [chain])
+            chain = node
+        for x in ast.walk(chain):
+            if isinstance(x, (ast.expr, ast.stmt)) and not hasattr(x, "lineno"):
+                ast.copy_location(x, st)
+        ast.copy_location(chain, st)
+        return ast.fix_missing_locations(chain)
+
+    def visit_Expr(self, st):
+        return self._rewrite(st, st.value, lambda c: ast.copy_location(ast.Expr(value=c), st))
+
+    def visit_Assign(self, st):
+        return self._rewrite(st, st.value, lambda c: ast.copy_location(ast.Assign(targets=copy.deepcopy(st.targets), value=c, lineno=st.lineno), st))
+
+    def visit_Return(self, st):
+        if st.value is None:
+            return st
+        return self._rewrite(st, st.value, lambda c: ast.copy_location(ast.Return(value=c), st))
+
+
+def normalise_body(body: List[ast.stmt], repo: Optional[Repo] = None, f: Optional[FuncInfo] = None) -> List[ast.stmt]:
     out = []
     t, u = _LoopsToAny(), _IfExpToIf()
+    try:
+        td = _TableDispatch(repo, f, ast.Module(body=body, type_ignores=[]))
+        body = [y for st in body for y in (lambda r_: r_ if isinstance(r_, list) else [r_])(td.visit(st))]
+    except Exception:
+        pass
     for st in body:
         r = t.visit(st)
         for x in (r if isinstance(r, list) else [r]):
@@ -209,7 +298,7 @@ class Flattener:
     def _instantiate(self, callee: FuncInfo, call: ast.Call, recv: Optional[ast.AST], stack, depth) -> Tuple[List[ast.stmt], ast.AST]:
         n = next(_counter)
         fn = copy.deepcopy(callee.node)
-        body = normalise_body(list(fn.body))
+        body = normalise_body(list(fn.body), self.repo, callee)
         if body and isinstance(body[0], ast.Expr) and isinstance(body[0].value, ast.Constant) and isinstance(body[0].value.value, str):
             body = body[1:]
         params = list(callee.params)
@@ -431,7 +520,7 @@ class Flattener:
     # ------------------------------------------------------------------ entry
     def run(self) -> FuncInfo:
         fn = copy.deepcopy(self.f.node)
-        fn.body = self._flatten_block(_loops_over_generators(self.repo, self.f, normalise_body(list(fn.body))), self.f, (self.f.qn,), 1)
+        fn.body = self._flatten_block(_loops_over_generators(self.repo, self.f, normalise_body(list(fn.body), self.repo, self.f)), self.f, (self.f.qn,), 1)
         try:
             if expand_generators(self.repo, self.f, fn, (self.f.qn,)):
                 self.inlined.append("<generator helpers>")
